@@ -391,6 +391,21 @@ def rule_e(ctx):
         calls = [norm(c) for c in ast.walk(loops[0]) if isinstance(c, ast.Call) and norm(c.func) == t]
         ok = calls == [f"{t}(self, overwrite=True)"]
     ctx.ob(R, f.qname, "for t in transformations: t(self, overwrite=True)", ok, "", f.node)
+    if len(loops) == 1:
+        # every entry of the list is applied: the only tests on the way to the call ask whether the entry is callable at all; a test that reads
+        # the entry's own state (an `active` flag, a configuration) makes construction differ from calling the correction, which decides itself
+        t = norm(loops[0].target)
+        tests = [n.test for n in ast.walk(loops[0]) if isinstance(n, (ast.If, ast.IfExp))] + [n.test for n in ast.walk(loops[0]) if isinstance(n, ast.While)]
+        state_reads = []
+        for tst in tests:
+            for x in ast.walk(tst):
+                if isinstance(x, ast.Attribute) and norm(x.value) == t:
+                    state_reads.append(f"{t}.{x.attr}")
+                elif isinstance(x, ast.Call) and norm(x.func) == "getattr" and x.args and norm(x.args[0]) == t and len(x.args) > 1:
+                    state_reads.append(f"getattr({t}, {norm(x.args[1])})")
+        ctx.ob(R, f.qname, "no entry of `transformations` is skipped because of its own state", not state_reads,
+               f"a test inside the loop reads {sorted(set(state_reads))}: whether the correction runs at construction is decided by Image.__init__, not by the correction -- "
+               "Image(arr, transformations=[c]) and c(Image(arr)) differ for such an entry (an inactive colour correction still converts the data type)", loops[0], evidence=True)
     ctx.floor(R, 1)
 
 
